@@ -129,4 +129,54 @@ example : TruncSpec
   dsimp only
   cases h : (pyFloat t).bind Dbl.integral <;> simp
 
+/-! ### `coerce_float` -/
+
+/-- `float(x)` on a JSON value: the class of the resulting double and the value handed on (`OverflowError`: an int too
+    large for a double; `ValueError`: not a number text; `TypeError`: a list / dict) -/
+def pyFloatJ' : JV → Except String (FCls × PV)
+  | .null => .error "TypeError"
+  | .bool b => .ok (.finite, .float (.ofBool b))
+  | .int n => if intFitsDouble n then .ok (.finite, .float (.ofInt n)) else .error "OverflowError"
+  | .float t => match pyFloat t with | some d => .ok (clsOf d, .float (.text t)) | none => .error "ValueError"
+  | .str s => match pyFloat s with | some d => .ok (clsOf d, .float (.text s)) | none => .error "ValueError"
+  | .list _ => .error "TypeError"
+  | .obj _ => .error "TypeError"
+
+/-- `ValueError` (raised by `coerce_float`) and `TypeError` (out of `float(<list>)`) are the rejections its callers catch -/
+def toRF : Except String (FCls × PV) → R
+  | .ok (_, v) => .ok v
+  | .error e => if e == "ValueError" || e == "TypeError" then .error .coercion else .error .internal
+
+/-- **`coerce_float`: model = source**, for every JSON value. -/
+theorem coerce_float_model_eq_source (v : JV) :
+    toRF (Tr.coerce_float (fun x => match x with | .str s => s == "" | _ => false) isNoneJ pyFloatJ'
+          (fun f => f.1 == FCls.nan) (fun f => f.1 == FCls.inf) v)
+      = coerceFloat v := by
+  have hc : floatCatchesOverflow = true := rfl
+  have hg : ∀ c : FCls, floatGuardRejects c = (c == FCls.nan || c == FCls.inf) := by
+    intro c; cases c <;> rfl
+  cases v with
+  | null => simp [Tr.coerce_float, coerceFloat, isNoneJ, toRF]
+  | bool b => simp [Tr.coerce_float, coerceFloat, isNoneJ, pyFloatJ', toRF, floatChecked, hg]
+  | int n =>
+    by_cases hf : intFitsDouble n = true
+    · simp [Tr.coerce_float, coerceFloat, isNoneJ, pyFloatJ', toRF, floatChecked, hg, hf]
+    · simp [Tr.coerce_float, coerceFloat, isNoneJ, pyFloatJ', toRF, hc, hf]
+  | float t =>
+    cases hp : pyFloat t with
+    | none => simp [Tr.coerce_float, coerceFloat, isNoneJ, pyFloatJ', toRF, hp]
+    | some d =>
+      simp only [Tr.coerce_float, coerceFloat, isNoneJ, pyFloatJ', hp, floatChecked, hg, Bool.false_eq_true, if_false]
+      cases clsOf d <;> simp [toRF]
+  | str s =>
+    by_cases he : (s == "") = true
+    · simp [Tr.coerce_float, coerceFloat, toRF, he]
+    · cases hp : pyFloat s with
+      | none => simp [Tr.coerce_float, coerceFloat, isNoneJ, pyFloatJ', toRF, hp, he]
+      | some d =>
+        simp only [Tr.coerce_float, coerceFloat, isNoneJ, pyFloatJ', hp, he, floatChecked, hg, Bool.false_eq_true, if_false]
+        cases clsOf d <;> simp [toRF]
+  | list l => simp [Tr.coerce_float, coerceFloat, isNoneJ, pyFloatJ', toRF]
+  | obj o => simp [Tr.coerce_float, coerceFloat, isNoneJ, pyFloatJ', toRF]
+
 end PyGql.Props.C07
